@@ -12,8 +12,9 @@
 
   F14 (fixed in /repo): Encode used to check `uint32(headerInfoSize) > MaxHeaderSize`; with ≥ 4 GiB of
   header strings the conversion wrapped and a corrupt frame was returned without error — the proof of
-  `encode_layout` did not close without `infoSize < 2^32`. With the check on the untruncated int the
-  theorem is unconditional; `rejects_4GiB` is the former witness.
+  `encode_layout` did not close without `infoSize < 2^32`. The model now compares modulo
+  `2^Facts.ttEncodeSizeCheckBits` (the static width Tie A reads off the source, 64 after the fix); the only
+  hypothesis left is the 64-bit-int assumption `infoSize < 2^64`; `rejects_4GiB` is the former witness.
 -/
 import Verif.Lemmas.TthRt
 import Verif.Lemmas.TthStream
@@ -26,13 +27,14 @@ open Verif.TTH Verif.Frame
     layout (length field = the 4 untouched bytes of fresh memory, to be set by the caller), the declared
     size is a multiple of 4, and every length and count in the frame fits its 16-bit field — so the
     `uint16(len)` truncations in WriteString2BLen and in the entry counts are never observable. -/
-theorem encode_layout (p : EncParam) (w : W) (hb : w.broken = false) (hd : (fp p).Dom) :
+theorem encode_layout (p : EncParam) (w : W) (hb : w.broken = false) (hd : (fp p).Dom)
+    (h64 : infoSize (fp p) < 2 ^ 64) :
     (encode p w = .err .size ↔ infoSize (fp p) > 65536) ∧
     (infoSize (fp p) ≤ 65536 → ∃ w', encode p w = .ok (w.n, w') ∧
         w'.bytes = w.bytes ++ layout (lenField w) (fp p) ∧
         (layout (lenField w) (fp p)).length = 14 + infoSize (fp p) ∧ infoSize (fp p) % 4 = 0 ∧
         ∀ s ∈ secsOf (fp p), wfSec s) := by
-  obtain ⟨h1, h2⟩ := encode_layout_lemma p w hb hd
+  obtain ⟨h1, h2⟩ := encode_layout_lemma p w hb hd h64
   refine ⟨⟨fun he => ?_, h1⟩, fun hs => ?_⟩
   · by_cases hbig : infoSize (fp p) > 65536
     · exact hbig
@@ -105,7 +107,7 @@ theorem decode_encode (p : EncParam) (w : W) (hb : w.broken = false) (hd : (fp p
       d.flags = p.flags ∧ d.seq = p.seq ∧ d.proto = p.proto ∧
       (∀ k, (mk d.intKV).lookup k = p.intKV.lookup k) ∧ (∀ k, (mk d.strKV).lookup k = p.strKV.lookup k) ∧
       d.headerLen = (frame.length : Int) ∧ d.payloadLen = (payload.length : Int) := by
-  obtain ⟨_, h2⟩ := encode_layout_lemma p w hb hd
+  obtain ⟨_, h2⟩ := encode_layout_lemma p w hb hd (by omega)
   obtain ⟨L, e, hbytes⟩ := h2 hs
   obtain ⟨w'', e2, hb2⟩ := setTotalLen_layout p w L (14 + infoSize (fp p) + payload.length - 4) hd hs hbytes
   rw [Nat.mod_eq_of_lt htot] at hb2
@@ -269,7 +271,7 @@ theorem rejects_4GiB (v : Bytes) (hv : v.length = 4294967290) (w : W) (hb : w.br
       one_str_size [107] v (by decide) (by decide)
     rw [hv] at h; exact h
   have hsz : infoSize (fp (big v)) = 4294967300 := by unfold infoSize padLen; rw [hlen]
-  exact ⟨hsz, (encode_layout (big v) w hb (big_dom v)).1.mpr (by rw [hsz]; decide)⟩
+  exact ⟨hsz, (encode_layout (big v) w hb (big_dom v) (by rw [hsz]; decide)).1.mpr (by rw [hsz]; decide)⟩
 
 example : ∃ v : Bytes, v.length = 4294967290 := ⟨List.replicate 4294967290 0, List.length_replicate⟩
 
